@@ -116,6 +116,60 @@ def run(ctx):
     ctx.analysed['call_sites'] = eng.stats['calls']
     ctx.analysed['resolved'] = dict(eng.stats)
     r2_freshness(ctx)
+    from . import shared
+    shared.no_one_shot_state(ctx, 'R2')
+    r3_set_order(ctx, eng, [f for f, _ in entries])
+
+
+def r3_set_order(ctx, eng, entries):
+    """The iteration order of a set is not a function of the text that was imported (hashes of objects depend on identities and
+    counters, hashes of strings on the process): on a read-only path no local set built by the function may be iterated to
+    produce a sequence, unless through sorted().  Membership tests, len(), set algebra and any()/all() do not depend on order."""
+    seen = set()
+    n = 0
+    for f0 in entries:
+        for g in eng.reachable(f0):
+            if id(g.node) in seen or g.module.generated:
+                continue
+            seen.add(id(g.node))
+            sets = set()
+            for node in walk_local(g.node):
+                if isinstance(node, ast.Assign) and len(node.targets) == 1 and isinstance(node.targets[0], ast.Name):
+                    v = node.value
+                    if isinstance(v, (ast.Set, ast.SetComp)) or (isinstance(v, ast.Call) and isinstance(v.func, ast.Name) and v.func.id in ('set', 'frozenset')
+                                                                 and ctx.prog.resolve(g.module, v.func.id) is None):
+                        if not (isinstance(v, ast.Set) and all(isinstance(e, ast.Constant) for e in v.elts)):
+                            sets.add(node.targets[0].id)
+            if not sets:
+                continue
+            stores = {}
+            for node in walk_local(g.node):
+                if isinstance(node, ast.Name) and isinstance(node.ctx, ast.Store):
+                    stores[node.id] = stores.get(node.id, 0) + 1
+            sets = {x for x in sets if stores.get(x) == 1}
+            for node in walk_local(g.node):
+                its = []
+                if isinstance(node, ast.For):
+                    its.append(node.iter)
+                elif isinstance(node, (ast.ListComp, ast.GeneratorExp, ast.DictComp)):
+                    its.extend(gen.iter for gen in node.generators)
+                elif isinstance(node, ast.Call) and isinstance(node.func, ast.Name) and node.func.id in ('list', 'tuple', 'enumerate') and node.args:
+                    its.append(node.args[0])
+                for it in its:
+                    if isinstance(it, ast.Name) and it.id in sets:
+                        n += 1
+                        # consumers for which the order does not matter
+                        par_ok = False
+                        for p_ in walk_local(g.node):
+                            if isinstance(p_, ast.Call) and isinstance(p_.func, ast.Name) and p_.func.id in ('any', 'all', 'sum', 'len', 'min', 'max', 'set', 'frozenset', 'sorted') \
+                                    and p_.args and p_.args[0] is node:
+                                par_ok = True
+                        if isinstance(node, ast.For) or not par_ok:
+                            ctx.violation('R3', f'{g.module.relpath}:{node.lineno}', g.qualname, f'set-iteration-order:{it.id}',
+                                          f'`{src(node)[:80]}` iterates the set `{it.id}` on a read-only path: the order of a set depends on '
+                                          f'object identities / hash seeds, not on the imported text - two imports of the same text can '
+                                          f'give different results')
+    ctx.count('R3.set_iterations_checked', n)
 
 
 def _norm(what):
